@@ -51,7 +51,7 @@ def generate(rng, tier):
         if rng.random() < 0.25 and last.end - last.pos > 2:
             cut = rng.randint(last.pos + 1, last.end - 1)
     return {'source': src, 'backend': rng.choice(['simpath', 'simpath', 'realpath']), 'cut': cut,
-            'raw_ts': rng.random() < 0.4, 'win_seed': rng.getrandbits(32)}
+            'raw_ts': rng.random() < 0.4, 'win_seed': rng.getrandbits(32), 'debug_log': rng.random() < 0.05}
 
 
 def pnorm(v):
@@ -110,7 +110,7 @@ def execute(case):
     res.backend = backend
     if backend == 'realpath':
         res.probe('realpath')
-    with store(record=False) as st:
+    with store(record=False) as st, lib.knobs(debug_log=case.get('debug_log', False)):
         # ---- materialise data + index
         if src['kind'] == 'stub':
             w = build(src['spec'])
